@@ -262,7 +262,18 @@ impl FarmWorld {
                 tr.fail("C05", "failed_tx_changes_state", site, "observable state differs after a failed transaction");
             }
             if legit {
-                tr.fail("C05", "no_legit_failure", site, &format!("legitimate call failed: {}", res.msg));
+                // the weekly pool subtraction `remaining(w) -= reward`: the reward the formula gives the
+                // caller for a claimable week exceeds what is left in (or accumulated for) that week's pool
+                let pool_underflow = res.msg.contains("cannot subtract") && expected_b.iter().any(|(w, amt)| {
+                    let info = pre.wk(*w);
+                    let left = if info.trewards.is_some() { info.remaining.clone() } else { info.accum.clone() };
+                    amt > &left
+                });
+                if pool_underflow {
+                    tr.fail("C05", "no_legit_failure.boosted_pool_underflow", site, &format!("legitimate call failed: {} (boosted reward of a claimable week exceeds that week's pool: {:?})", res.msg, expected_b));
+                } else {
+                    tr.fail("C05", "no_legit_failure", site, &format!("legitimate call failed: {}", res.msg));
+                }
             }
             return;
         }
